@@ -173,3 +173,30 @@ MANIFEST_TEXT["C08"] = dict(
     design_ref="DESIGN.md sections 3 and 4/C08",
     note="The reference is the library's own single-handler evaluation (which C01-C03 check against the independent model); Groups is a singleton that is reset before every case.",
     technique="property-based testing (rapidcheck): differential oracle (group evaluation vs. merged single handler), under ASan/UBSan")
+
+HARNESSES["keys"] = dict(cfg="asan", sources=["harness/keys.cpp"], lib_only=ARGH_LIB)
+PROPS["C05"] = dict(
+    units=[dict(harness="keys", mode="lookup", quick=dict(cases=2500), thorough=dict(cases=20000, shards=16))],
+    rule="sets of 2..6 key specifications over a collision vocabulary (short keys {a,b,i,o}; long keys in, inp, inpu, input, "
+         "input-file, input-format, out, outp, output; 7 spec notations) x abbreviations on/off x ALL definition orders for sets "
+         "of up to 4 specifications (6 sampled orders above); per order every exact short key, every exact long key and EVERY "
+         "prefix (length 1..len) of every long key plus two undefined keys is looked up with a value on a fresh handler. Oracle: "
+         "set-theoretic key model (refusal of addArgument iff short or long key already taken; exact key -> own argument; proper "
+         "prefix of length >= 2 selects iff abbreviations are on, exactly one long key starts with it and no exact key equals "
+         "it; a one-character name is the short key) and identical outcomes for every definition order. Non-trivial = the set "
+         "has a long key that is a proper prefix of >= 2 others, or a refused specification; distinct by case hash.",
+    require_classes=dict(all=["key_conflict_refused", "nested_prefix_keys", "abbreviations_off", "all_permutations", "lookups"]),
+    assumptions=["a one-character name after '--' is the short key (key grammar); keys are looked up with a value because all destinations are int variables",
+                 "sets of more than 4 specifications are evaluated in 6 sampled definition orders, not all"],
+)
+MANIFEST_TEXT["C05"] = dict(
+    text="Generated key-specification sets built for collisions are defined in all (small sets) or several (larger sets) orders; which "
+         "specification is refused and which destination receives the value for every exact key and every prefix must match a "
+         "set-theoretic key model and must not depend on the definition order (metamorphic). " + EXPL,
+    design_ref="DESIGN.md section 4/C05",
+    note="Trusts the 40-line key model in harness/keys.cpp, which never looks at ArgumentKey; each lookup runs on a fresh handler.",
+    technique="property-based testing (rapidcheck) + exhaustive permutation of definition orders: reference key model + order-invariance, under ASan/UBSan")
+PROPS["C08"]["units"].append(dict(harness="keys", mode="groupdup", quick=dict(cases=6000), thorough=dict(cases=60000, shards=4)))
+PROPS["C08"]["rule"] += (" Second unit: key-specification sets (collision vocabulary of C05) spread over 1..3 member handlers in several "
+                         "definition orders; addArgument must be refused iff the short or long key is already taken in ANY member.")
+PROPS["C08"]["require_classes"]["all"] += ["cross_member_duplicate", "group_orders_evaluated"]
